@@ -201,7 +201,9 @@ def inf_of_sign(s):
 def tox(v):
     if isinstance(v, X):
         return v
-    if isinstance(v, (int, Fraction)) and not isinstance(v, bool):
+    if isinstance(v, (bool,)) or (hasattr(v, "dtype") and getattr(v.dtype, "kind", "") == "b"):
+        return X("f", Fraction(int(bool(v))))
+    if isinstance(v, (int, Fraction)):
         return X("f", Fraction(v))
     if hasattr(v, "dtype") and getattr(v, "shape", None) == () and v.dtype == object:
         return tox(v.item())
@@ -547,6 +549,7 @@ def exp_lit(e):
 
 
 def run_case(ctx, ci, rng, cases, records):
+    PT = "true" if ctx.meta.get("patched") else "false"
     import cotengra as ctg
     import numpy as np
     from cotengra.contract import extract_contractions
@@ -648,7 +651,7 @@ def run_case(ctx, ci, rng, cases, records):
             kk = tree.slice_key(k)
             keys.append(flat([kk[ix] for ix in out_sliced], [size_dict[ix] for ix in out_sliced]))
         chunk0d = "true" if len(out_sliced) == len(output) else "false"
-        model = "X_stack true %s %s prog [%s]%%nat slices" % (czl, chunk0d, ";".join(map(str, keys)))
+        model = "X_stack %s true %s %s prog [%s]%%nat slices" % (PT, czl, chunk0d, ";".join(map(str, keys)))
         if exact_err is not None:
             expect = "None"
         else:
@@ -669,7 +672,7 @@ def run_case(ctx, ci, rng, cases, records):
                 chunks.append("(%d%%nat, %s)" % (key, mant_lit(m[tuple(sel)])))
             expect = "Some ([%s], Some %s)" % ("; ".join(chunks), exp_lit(e))
     else:
-        model = "X_sum true %s prog slices" % czl
+        model = "X_sum %s true %s prog slices" % (PT, czl)
         if exact_err is not None:
             expect = "None"
         else:
@@ -694,9 +697,9 @@ def run_case(ctx, ci, rng, cases, records):
                 else:
                     # the final node is not consumed by a kernel: its mantissa is the slice result, which is
                     # compared through the gathered value; here only its factor is compared
-                    row.append("(%s, last_max (X_trace prog (nth %d slices [])))" % (fac.coq(), k))
+                    row.append("(%s, last_max (X_trace %s prog (nth %d slices [])))" % (fac.coq(), PT, k))
             rows.append("[" + "; ".join(row) + "]")
-        lhs_tr = "map (fun a => map (fun t => (fst t, snd (snd t))) (X_trace prog a)) slices"
+        lhs_tr = "map (fun a => map (fun t => (fst t, snd (snd t))) (X_trace %s prog a)) slices" % PT
         rhs_tr = "[" + "; ".join(rows) + "]"
     else:
         lhs_tr, rhs_tr = "tt", "tt"
@@ -743,8 +746,10 @@ def run_case(ctx, ci, rng, cases, records):
         key = None
         if zero_slices and sliced and not cz:
             key = "strip-zero-slice"
-        elif zero_slices and sliced and cz and (len(zero_slices) > 1 or out_sliced):
-            key = "strip-zero-slice-check-zero"
+        elif zero_slices and sliced and cz and out_sliced and ferr is not None and "same shape" in ferr:
+            key = "strip-zero-chunk-check-zero-stack"
+        elif zero_slices and sliced and cz and len(zero_slices) > 1:
+            key = "strip-two-zero-slices-check-zero"
         rec2 = dict(rec)
         rec2["observed"] = repr(fout)[:600] if ferr is None else ferr
         rec2["exact_reference"] = [str(v) for v in ref[:16]]
@@ -769,58 +774,77 @@ def run_case(ctx, ci, rng, cases, records):
 
 
 def probe_known(ctx):
-    """the repro of each known finding, run every time"""
+    """the repro of each known finding, run every time; also determines which semantics the code under test
+    has for a zero factor (pinned: 0/0 = nan; proposed fix: divisor factor + (factor == 0) and `== -inf` guards),
+    so that the model instance with the same semantics is used in the correspondence"""
     import cotengra as ctg
     import numpy as np
+    from cotengra.core import add_maybe_exponent_stripped
     inputs = [("a", "b"), ("b", "c")]
     output = ("a", "c")
     sd = {"a": 2, "b": 2, "c": 2}
     x = np.array([[1.0, 0.0], [2.0, 0.0]])
     y = np.array([[1.0, 2.0], [3.0, 4.0]])
-    want = x @ y
 
-    def ok(o):
-        return (isinstance(o, tuple) and len(o) == 2 and np.all(np.isfinite(np.asarray(o[0], dtype=float)))
-                and np.allclose(np.asarray(o[0], dtype=float) * 10 ** float(o[1]), want))
+    def ok(o, want):
+        try:
+            return (isinstance(o, tuple) and len(o) == 2 and np.all(np.isfinite(np.asarray(o[0], dtype=float)))
+                    and np.allclose(np.asarray(o[0], dtype=float) * 10 ** float(o[1]), want))
+        except Exception:  # noqa
+            return False
+
+    def sliced_tree(sizes, *ixs):
+        t = ctg.ContractionTree.from_path(inputs, output, sizes, path=[(0, 1)])
+        for ix in ixs:
+            t.remove_ind_(ix)
+        return t
 
     with warnings.catch_warnings():
         warnings.simplefilter("ignore")
-        tree = ctg.ContractionTree.from_path(inputs, output, sd, path=[(0, 1)])
-        tree.remove_ind_("b")
-        o = tree.contract([x, y], strip_exponent=True)
-        if not ok(o):
-            ctx.fail("'ab,bc->ac' sliced on b with a zero column: strip_exponent total is %r, true %r" % (o, want.tolist()),
+        # --- which semantics?
+        z = sliced_tree(sd).contract([np.zeros((2, 2)), y], strip_exponent=True)
+        pt_div = bool(np.all(np.asarray(z[0]) == 0.0))
+        ninf = float("-inf")
+        zz = add_maybe_exponent_stripped((np.zeros(2), ninf), (np.zeros(2), ninf))
+        pt_add = bool(np.all(np.asarray(zz[0]) == 0.0))
+        ctx.meta["patched"] = pt_div
+        ctx.coverage["zero_factor_semantics"] = "proposed-fix" if pt_div else "pinned"
+        if pt_div != pt_add:
+            ctx.fail("zero-factor semantics of Contractor (%s) and add_maybe_exponent_stripped (%s) are neither the "
+                     "pinned nor the proposed ones: no model instance follows this code" % (pt_div, pt_add),
+                     {"contractor_zero_product": repr(z), "add_two_zero_terms": repr(zz)}, found_input=False)
+        # --- strip-zero-slice
+        o = sliced_tree(sd, "b").contract([x, y], strip_exponent=True)
+        if not ok(o, x @ y):
+            ctx.fail("'ab,bc->ac' sliced on b with a zero column: strip_exponent total is %r, true %r" % (o, (x @ y).tolist()),
                      {"repro": "proposed_fixes/C19_strip-zero-slice.py", "observed": repr(o)}, key="strip-zero-slice")
-        # check_zero=True, two zero slices first
+        xz = np.array([[1.0, 2.0], [0.0, 0.0]])
+        o = sliced_tree(sd, "a").contract([xz, y], strip_exponent=True)
+        if not ok(o, xz @ y):
+            ctx.fail("'ab,bc->ac' sliced on a with a zero row: strip_exponent total is %r, true %r" % (o, (xz @ y).tolist()),
+                     {"repro": "proposed_fixes/C19_strip-zero-slice.py", "observed": repr(o)}, key="strip-zero-slice")
+        # --- check_zero=True, two zero slices first
         sd3 = {"a": 2, "b": 3, "c": 2}
         x3 = np.array([[0.0, 0.0, 1.0], [0.0, 0.0, 2.0]])
         y3 = np.array([[3.0, 4.0], [3.0, 4.0], [1.0, 2.0]])
-        tree = ctg.ContractionTree.from_path(inputs, output, sd3, path=[(0, 1)])
-        tree.remove_ind_("b")
-        o = tree.contract([x3, y3], strip_exponent=True, check_zero=True)
-        bad = not (isinstance(o, tuple) and np.allclose(np.asarray(o[0], dtype=float) * 10 ** float(o[1]), x3 @ y3))
-        # ... and a zero chunk of a sliced output index
-        xz = np.array([[1.0, 2.0], [0.0, 0.0]])
-        tree = ctg.ContractionTree.from_path(inputs, output, sd, path=[(0, 1)])
-        tree.remove_ind_("a")
+        o = sliced_tree(sd3, "b").contract([x3, y3], strip_exponent=True, check_zero=True)
+        if not ok(o, x3 @ y3):
+            ctx.fail("check_zero=True, two zero slices combined first: total is %r, true %r" % (o, (x3 @ y3).tolist()),
+                     {"repro": "proposed_fixes/C19_strip-zero-slice.py", "observed": repr(o)},
+                     key="strip-two-zero-slices-check-zero")
+        # --- check_zero=True and a zero chunk of a sliced output index
         try:
-            o2 = tree.contract([xz, y], strip_exponent=True, check_zero=True)
-            bad2 = not np.allclose(np.asarray(o2[0], dtype=float) * 10 ** float(o2[1]), xz @ y)
+            o2 = sliced_tree(sd, "a").contract([xz, y], strip_exponent=True, check_zero=True)
         except Exception as ex:  # noqa
-            o2, bad2 = repr(ex), True
-        if bad or bad2:
-            ctx.fail("check_zero=True: two zero slices -> %r ; zero output chunk -> %r" % (o, o2),
-                     {"repro": "proposed_fixes/C19_strip-zero-slice.py"}, key="strip-zero-slice-check-zero")
-        # gen_output_chunks with an inner sliced index
+            o2 = repr(ex)
+        if not ok(o2, xz @ y):
+            ctx.fail("check_zero=True, zero chunk of a sliced output index: %r, true %r" % (o2, (xz @ y).tolist()),
+                     {"repro": "see docs/C19.md", "observed": repr(o2)}, key="strip-zero-chunk-check-zero-stack")
+        # --- gen_output_chunks with an inner sliced index
         xx = np.array([[1.0, 2.0], [3.0, 5.0]])
-        tree = ctg.ContractionTree.from_path(inputs, output, sd, path=[(0, 1)])
-        tree.remove_ind_("a")
-        tree.remove_ind_("b")
-        chunks = list(tree.gen_output_chunks([xx, y], strip_exponent=True))
+        chunks = list(sliced_tree(sd, "a", "b").gen_output_chunks([xx, y], strip_exponent=True))
         full = xx @ y
-        good = all(isinstance(c, tuple) and len(c) == 2 and np.allclose(np.asarray(c[0]) * 10 ** float(c[1]), full[k])
-                   for k, c in enumerate(chunks))
-        if not good:
+        if not all(ok(c, full[k]) for k, c in enumerate(chunks)):
             ctx.fail("gen_output_chunks(strip_exponent=True) with an inner sliced index yields %r" % (chunks[0],),
                      {"repro": "proposed_fixes/C19_output-chunks-tuple.py", "observed": repr(chunks)},
                      key="strip-output-chunks-tuple-concat")
